@@ -5,6 +5,23 @@ From QV Require Import Common.Prelude Engine.Model Engine.Core Engine.CoreSpec E
   Engine.MdlBase Engine.MdlInv Engine.MdlInvState Engine.MdlInvExec.
 Open Scope Z_scope.
 
+Lemma clean_fold_we : forall cleaned s n,
+  s_world (clean_fold n cleaned s) = s_world s /\ s_ext (clean_fold n cleaned s) = s_ext s.
+Proof.
+  unfold clean_fold. induction cleaned as [|c r IH]; intros s n; cbn [fold_left]; [auto|].
+  destruct (IH (set_dirty s (eremove (n, c) (s_dirty s))) n) as (H1 & H2). rewrite H1, H2. auto.
+Qed.
+Lemma clean_query_world : forall s n cl nt, s_world (clean_query s n cl nt) = s_world s.
+Proof.
+  intros. unfold clean_query. destruct (get_info s n); [|reflexivity]. cbn [put_info set_nodes s_world].
+  apply (clean_fold_we cl s n).
+Qed.
+Lemma clean_query_ext : forall s n cl nt, s_ext (clean_query s n cl nt) = s_ext s.
+Proof.
+  intros. unfold clean_query. destruct (get_info s n); [|reflexivity]. cbn [put_info set_nodes s_ext].
+  apply (clean_fold_we cl s n).
+Qed.
+
 Section Clean.
 Variable p : program.
 Variable rk : node -> nat.
@@ -203,7 +220,7 @@ Proof.
     intros m j Hj Hv. rewrite Hget in Hj. destruct (node_eqb_spec n m) as [<-|Hne].
     + inversion Hj. subst j. unfold ni, cq_info. cbn [i_value].
       destruct (mi_kind _ _ _ _ _ _ _ HI n i Hi) as [(K1 & _ & _ & _ & K5)|(K1 & e & l & Ke & Kev & Kr)].
-      * apply MSpecI_input; assumption.
+      * apply MSpecI_leaf; assumption.
       * eapply MSpecI_exec; eauto. eapply evr_msev; [exact Kev|]. intros d x _ Hx. apply HfS; [|exact Hx].
         destruct Hx as [t Hx]. unfold old_fwd. rewrite Hi. eapply mi_obs_fwd; eauto.
     + eapply mi_V; eauto. congruence.
@@ -233,7 +250,12 @@ Proof.
       destruct nt; [|reflexivity]. destruct (alookup (i_obs i) d) as [[v t]|].
       * split; intros [t1 E]; inversion E; eauto.
       * split; intros [t1 E]; discriminate.
-    + eapply mi_O; eauto. }
+    + eapply mi_O; eauto.
+  - (* mi_W *)
+    intros k Hk0. unfold s' in *. rewrite Hget in Hk0. destruct (node_eqb n (ext_node k)); [discriminate|].
+    unfold world_get. rewrite clean_query_world. apply (mi_W _ _ _ _ _ _ _ HI). exact Hk0.
+  - (* mi_ext *)
+    intros e He0. unfold s' in He0. rewrite clean_query_ext in He0. eapply mi_ext; eauto. }
   (* MKeeps *)
   intros d j Hj [HG _]. destruct (node_eq_dec d n) as [->|Hne].
   - assert (j = i) by congruence. subst j. exists ni. split; [exact Hgetn|].
@@ -326,7 +348,10 @@ Proof.
     left. apply Hv. exact Hvn.
   - intros m j' Hj. destruct (Hbw m j' Hj) as [j [A (_ & _ & _ & _ & O)]].
     destruct (mi_O m j A) as [K|[i0 [K1 K2]]]; [left; exact K|right]. exists i0. split; [exact K1|].
-    intros d x. rewrite <- K2. unfold obsV. rewrite O. reflexivity. }
+    intros d x. rewrite <- K2. unfold obsV. rewrite O. reflexivity.
+  - intros k Hk0. apply mi_W. destruct (get_info s (ext_node k)) as [j|] eqn:Hj; [|reflexivity].
+    destruct (Hfw _ _ Hj) as [j' [K' _]]. change (get_info s' (ext_node k) = None) in Hk0. rewrite K' in Hk0. discriminate.
+  - exact mi_ext. }
   intros d j Hj _. destruct (Hfw d j Hj) as [j' [A B]]. exists j'. split; [exact A|]. apply sbp_same_sem. exact B.
 Qed.
 End Clean.
